@@ -1,31 +1,45 @@
 #!/bin/bash
-# tools/run_seeded.sh [seed-dir ...]: applies each seeded change to /repo, runs the check(s) of the
-# property it breaks (quick, then thorough if quick is silent), reverts, and prints one line per seed.
-# /repo must be clean before; it is left clean.
+# tools/run_seeded.sh [-j N] [seed-dir ...]: applies each seeded change to a scratch worktree of /repo
+# (never to /repo itself), runs the check(s) of the property it breaks against that tree (quick, then
+# thorough if quick is silent; REPO_DIR points the checks at the scratch tree), reverts, and prints one
+# line per seed. Seeds of one property run one after the other in the same job (they share
+# evidence/<ID>.json); N jobs (default 4) run side by side.
+# NOTE: the evidence files are overwritten by these mutant runs; re-run ./run_all.sh quick afterwards.
 cd "$(dirname "$0")/.."
 . ./env.sh
-# the seeds are applied to a scratch worktree of /repo (never to /repo itself), and the checks are
-# pointed at it through REPO_DIR
-SCRATCH="${SEED_SCRATCH:-/tmp/seed_scratch_$$}"
-git -C /repo worktree add -q --detach "$SCRATCH" HEAD || exit 3
-trap 'git -C /repo worktree remove --force "$SCRATCH" 2>/dev/null' EXIT
-export REPO_DIR="$SCRATCH"
+J=4
+if [ "${1:-}" = "-j" ]; then J="$2"; shift 2; fi
 dirs=("$@"); [ ${#dirs[@]} -eq 0 ] && dirs=(seeded/*/)
-for d in "${dirs[@]}"; do
-  d="${d%/}"
-  [ -f "$d/patch.diff" ] || continue
-  prop=$(python3 -c "import json;print(json.load(open('$d/meta.json'))['property'])")
-  also=$(python3 -c "import json;print(' '.join(json.load(open('$d/meta.json')).get('also_check',[])))")
-  if ! git -C "$REPO_DIR" apply "$PWD/$d/patch.diff" 2>/tmp/apply.err; then echo "$d: patch does not apply: $(head -1 /tmp/apply.err)"; continue; fi
-  res=""
-  for p in $prop $also; do
-    out=$(./check "$p" --tier quick 2>&1); code=$?
-    tier=quick
-    if [ $code -eq 0 ]; then out=$(./check "$p" --tier thorough 2>&1); code=$?; tier=thorough; fi
-    first=$(echo "$out" | grep -A2 '^VIOLATION' | sed -n '2,3p' | tr '\n' ' ' | cut -c1-220)
-    n=$(echo "$out" | grep -c '^VIOLATION')
-    res="$res [$p:$tier exit=$code violations_listed=$n $first]"
+props=$(for d in "${dirs[@]}"; do basename "$d" | cut -d_ -f1; done | sort -u)
+
+job() { # $1 = job number
+  local SCRATCH="/tmp/seed_scratch_$$_$1"
+  git -C /repo worktree add -q --detach "$SCRATCH" HEAD || return 3
+  export REPO_DIR="$SCRATCH"
+  local k=0
+  for P in $props; do
+    k=$((k+1)); [ $(( (k-1) % J )) -eq "$1" ] || continue
+    for d in "${dirs[@]}"; do
+      d="${d%/}"
+      [ "$(basename "$d" | cut -d_ -f1)" = "$P" ] || continue
+      [ -f "$d/patch.diff" ] || continue
+      prop=$(python3 -c "import json;print(json.load(open('$d/meta.json'))['property'])")
+      also=$(python3 -c "import json;print(' '.join(json.load(open('$d/meta.json')).get('also_check',[])))")
+      if ! git -C "$REPO_DIR" apply "$PWD/$d/patch.diff" 2>"$SCRATCH.err"; then echo "$d: patch does not apply: $(head -1 "$SCRATCH.err")"; continue; fi
+      res=""
+      for p in $prop $also; do
+        out=$(./check "$p" --tier quick 2>&1); code=$?
+        tier=quick
+        if [ $code -eq 0 ]; then out=$(./check "$p" --tier thorough 2>&1); code=$?; tier=thorough; fi
+        first=$(echo "$out" | grep -A2 '^VIOLATION' | sed -n '2,3p' | tr '\n' ' ' | cut -c1-220)
+        n=$(echo "$out" | grep -c '^VIOLATION')
+        res="$res [$p:$tier exit=$code violations_listed=$n $first]"
+      done
+      git -C "$REPO_DIR" checkout -- . ; git -C "$REPO_DIR" clean -fdq -- . 2>/dev/null
+      echo "$d:$res"
+    done
   done
-  git -C "$REPO_DIR" checkout -- . ; git -C "$REPO_DIR" clean -fdq -- . 2>/dev/null
-  echo "$d:$res"
-done
+  git -C /repo worktree remove --force "$SCRATCH" 2>/dev/null; rm -f "$SCRATCH.err"
+}
+for ((w=0; w<J; w++)); do job $w & done
+wait
